@@ -87,7 +87,7 @@ CHECKS = {
             E1_NOTE + " Time does not pass while a transaction has a PDU ready for its transport (a local transport stalled for a whole timer period is not modelled).", "DESIGN.md section 4 C17"),
     "C09": ("seq-mc", "model_checking",
             "explicit-state BFS to closure over the real Segments::merge with a bit-set reference model, all queries evaluated in every state",
-            "Every merge sequence over an M-position universe (M=8 quick, 11 thorough) at three bases (0, straddling 2^32, ending at 2^64-1) is explored to closure (all 2^M held-sets per base); in every reached state all is_complete(n) and all gaps(s,e) windows are compared with a bit set, and every merge return with the growth of the union. Exhaustive within the universe, which is the right level for a pure data structure whose defects are about range shapes, not magnitudes.",
+            "Every merge sequence over an M-position universe (M=9 quick, 14 thorough) at three bases (0, straddling 2^32, ending at 2^64-1) is explored to closure (all 2^M held-sets per base); in every reached state all is_complete(n) and all gaps(s,e) windows are compared with a bit set, and every merge return with the growth of the union. Exhaustive within the universe, which is the right level for a pure data structure whose defects are about range shapes, not magnitudes.",
             "Assumes translation invariance between the explored bases and that segments longer than M behave like those of length <= M. Hook H2 re-exports the crate-private type.",
             "DESIGN.md section 4 C09"),
 }
